@@ -628,15 +628,35 @@ impl Array {
                 }
             });
 
-            Array::sliced_op(
-                vec![&self],
-                &op,
-                None,
-                &self.dimensions,
-                dimensions,
-                flatten_dimension_count + 1,
-                0,
-            )
+            // sum the extra leading dimensions first, and then the broadcast unit dimensions
+            let trailing_dimensions = self.dimensions[flatten_dimension_count..].to_vec();
+            let flattened = if flatten_dimension_count > 0 {
+                Array::sliced_op(
+                    vec![&self],
+                    &op,
+                    None,
+                    &self.dimensions,
+                    &trailing_dimensions,
+                    self.dimensions.len(),
+                    0,
+                )
+            } else {
+                self
+            };
+
+            if flattened.dimensions == dimensions {
+                flattened
+            } else {
+                Array::sliced_op(
+                    vec![&flattened],
+                    &op,
+                    None,
+                    &flattened.dimensions,
+                    dimensions,
+                    1,
+                    0,
+                )
+            }
         }
     }
 
